@@ -57,6 +57,7 @@ type result struct {
 	ID     int                    `json:"id"`
 	Reads  []interface{}          `json:"reads"`
 	Ts     []int64                `json:"ts"`
+	T0     []int64                `json:"t0"`
 	Final  map[string]interface{} `json:"final"`
 	States map[string]interface{} `json:"states"`
 	Pool   []interface{}          `json:"pool"`
@@ -276,6 +277,9 @@ func lookup(p pairs, k int64) (int64, bool) {
 	return 0, false
 }
 
+// end of the previous LWW write on the driver's clock
+var lastT int64
+
 func runCase(k kase) (res result) {
 	res.ID = k.ID
 	res.Final = map[string]interface{}{}
@@ -318,7 +322,7 @@ func runCase(k kase) (res result) {
 		case "W":
 			r := geti(1)
 			s := get(r)
-			var ts int64
+			var ts, t0 int64
 			if k.Type == "gcounter" {
 				s = s.Write(e.repID(r), tla.MakeNumber(int32(geti(2))))
 			} else {
@@ -327,8 +331,15 @@ func runCase(k kase) (res result) {
 					{Key: cmdKey, Value: tla.MakeNumber(int32(cmd))},
 					{Key: elemKey, Value: e.elem(el)},
 				})
+				if k.Type == "lww" {
+					t0 = time.Now().UnixNano()
+					for t0 <= lastT {
+						t0 = time.Now().UnixNano()
+					}
+				}
 				s = s.Write(e.repID(r), val)
 				if k.Type == "lww" {
+					lastT = time.Now().UnixNano()
 					b, err := s.(resources.LWWSet).GobEncode()
 					if err != nil {
 						res.Err = "gob: " + err.Error()
@@ -350,6 +361,7 @@ func runCase(k kase) (res result) {
 			reps[r] = s
 			res.Reads = append(res.Reads, e.read(s))
 			res.Ts = append(res.Ts, ts)
+			res.T0 = append(res.T0, t0)
 			// write_inflationary, checked on the real Merge: before ⊔ after == after (both argument orders)
 			as, ac := e.canonStr(s)
 			if ms, mc := e.canonStr(before.Merge(s)); ms != as {
@@ -372,6 +384,7 @@ func runCase(k kase) (res result) {
 			pool = append(pool, s)
 			res.Reads = append(res.Reads, nil)
 			res.Ts = append(res.Ts, 0)
+			res.T0 = append(res.T0, 0)
 		case "D":
 			dst, m := geti(1), geti(2)
 			s := get(dst)
@@ -381,6 +394,7 @@ func runCase(k kase) (res result) {
 			reps[dst] = s
 			res.Reads = append(res.Reads, e.read(s))
 			res.Ts = append(res.Ts, 0)
+			res.T0 = append(res.T0, 0)
 		case "X":
 			var adds, rems pairs
 			json.Unmarshal(op[1], &adds)
@@ -398,6 +412,7 @@ func runCase(k kase) (res result) {
 			pool = append(pool, s)
 			res.Reads = append(res.Reads, nil)
 			res.Ts = append(res.Ts, 0)
+			res.T0 = append(res.T0, 0)
 		default:
 			res.Err = "unknown op " + kind
 			return
